@@ -248,7 +248,7 @@ def run(ctx):
                          "non-trivial = document with a container validated against a schema with a union")
     ctx.assumptions += ["decided by comparison with a python transcription of the statement's set semantics (differential), no Coq model of the multi-leaf validator: partial"]
     cases = []
-    n = 250 if quick else 10000
+    n = 1200 if quick else 20000
     for _ in range(n):
         k = rng.randint(2, 6)
         names, env = gen_types(rng, k)
@@ -266,7 +266,7 @@ def run(ctx):
         docs.append(J.rand_doc(rng, 2))
         cases.append((names, env, root, docs))
     # overlapping alternatives inside arrays (both alternatives accept the element)
-    for _ in range(40 if quick else 1500):
+    for _ in range(200 if quick else 3000):
         a = ("int", rng.choice([None, 0]), None, False)
         b = ("int", None, rng.choice([None, 10, 100]), False)
         env = {"@A": a, "@B": b, "@S": ("str", False)}
@@ -278,7 +278,7 @@ def run(ctx):
             docs.append(("a", xs) if root[0] == "arr" else ("o", [("l", ("a", xs))]))
         cases.append((["@A", "@B", "@S"], env, root, docs))
     # allOf children without required own keys whose parents are also used directly; nullable unions reached through references
-    for _ in range(40 if quick else 1500):
+    for _ in range(200 if quick else 3000):
         env = {"@B": ("obj", [("b", False, ("int", None, None, False))], None, []), "@C": ("obj", [("c", False, ("str", False)), ("c2", True, ("bool",))], None, []),
                "@I": ("int", 0, None, False), "@S": ("str", False)}
         own = rng.choice([[], [("o", True, ("bool",))], [("o", False, ("bool",))]])
